@@ -386,6 +386,10 @@ def gen_op(rng, w):
     if w.last["cap"] == 0 and roll < 0.7:
         return ["TopUp", OWNER, rng.choice([1, 1000, 10 ** 9, 10 ** 18, log_amount(rng)])]
     if sh["rate"] != 0 and not sh["produce"] and roll < 0.6:
+        # production was stopped (or never started): let an idle gap pass before the restart about a third of the
+        # time, so that "restart is not retroactive" is exercised with blocks between endProduceRewards and start
+        if roll < 0.2 and sh.get("last", 0) >= w.blk:
+            return ["Time", rng.choice([1, 10, 100]), rng.choice([7, 8, 14, 1])]
         return ["Start", OWNER]
     if w.cfg.get("boost"):
         st = w.__dict__.setdefault("boost_stage", 0)
